@@ -346,13 +346,15 @@ package interpreter
 //@   ensures [conservation-upper] {C03} sumAmounts(result, len(result)) <= old(sumMon(st.Receivers, len(st.Receivers)))
 //@   ensures [other-assets] {C09} forallstr(a, c, c != st.CurrentAsset ==> bal(st, a, c) == old(bal(st, a, c)))
 //@   ensures [cache-ok] cacheOk(st)
-//@   modifies heap(bigint), entries(st.CachedBalances), allentries("map[string]*math/big.Int"), elems(st.Senders), elems(st.Receivers)
+//@   ensures [cache-grew] {C10,C11} cacheGrew(st)
+//@   modifies cellsof(st), entries(st.CachedBalances), allentries("map[string]*math/big.Int"), elems(st.Senders), elems(st.Receivers)
 //@   loop 1
 //@     invariant [postings-ok] {C02} forall(k, 0, len(postings), postings[k].Amount != nil && val(postings[k].Amount) > 0 && postings[k].Asset == st.CurrentAsset && postings[k].Destination != KEPT_ADDR && allocated(ref(postings[k].Amount)))
 //@     invariant [amounts-apart] forall(k, 0, len(postings), notCell(st, postings[k].Amount))
 //@     invariant [amounts-kept] {C03} sumAmounts(postings, len(postings)) == atloop(sumAmounts(postings, len(postings)))
 //@     invariant [other-assets] {C09} forallstr(a, c, c != st.CurrentAsset ==> bal(st, a, c) == old(bal(st, a, c)))
 //@     invariant [cache-ok] cacheOk(st)
+//@     invariant [cache-grew] {C11} cacheGrew(st)
 //@     assert [step-cells] known(st, posting.Source, posting.Asset) && known(st, posting.Destination, posting.Asset) && st.CachedBalances[posting.Source][posting.Asset] == srcBalance && st.CachedBalances[posting.Destination][posting.Asset] == destBalance
 //@     assert [step-known] forallstr(a, c, athead(known(st, a, c)) ==> known(st, a, c) && st.CachedBalances[a][c] == athead(st.CachedBalances[a][c]))
 //@     assert [step-new] forallstr(a, c, known(st, a, c) && !athead(known(st, a, c)) ==> (a == posting.Source || a == posting.Destination) && c == posting.Asset)
@@ -378,7 +380,8 @@ package interpreter
 //@   ensures [queues-untouched] {C09} st.Senders == old(st.Senders) && st.Receivers == old(st.Receivers)
 //@   ensures [error-no-postings] {C12} err != nil ==> len(result) == 0
 //@   ensures [cache-ok] cacheOk(st) && varsOk(st)
-//@   modifies heap(bigint), entries(st.CachedBalances), allentries("map[string]*math/big.Int")
+//@   ensures [cache-grew] {C10,C11} cacheGrew(st)
+//@   modifies cellsof(st), entries(st.CachedBalances), allentries("map[string]*math/big.Int")
 
 //@ func (*programState).runSendStatement
 //@   requires [wf] wf(statement)
@@ -395,7 +398,8 @@ package interpreter
 //@   ensures [negative-rejected] {C02,C12} !isAll && evalErr(st, as(sv, *parser.SentValueLiteral).Monetary) == nil && typeis(evalOf(st, as(sv, *parser.SentValueLiteral).Monetary), Monetary) && val(mon.Amount) < 0 ==> typeis(err, NegativeAmountErr)
 //@   ensures [error-no-postings] {C03,C12} err != nil ==> len(result) == 0
 //@   ensures [state-ok] varsOk(st) && cacheOk(st)
-//@   modifies st.Senders, st.Receivers, st.CurrentAsset, heap(bigint), entries(st.CachedBalances), allentries("map[string]*math/big.Int"), allelems(Sender), allelems(Receiver)
+//@   ensures [cache-grew] {C10,C11} cacheGrew(st)
+//@   modifies st.Senders, st.Receivers, st.CurrentAsset, cellsof(st), entries(st.CachedBalances), allentries("map[string]*math/big.Int"), allelems(Sender), allelems(Receiver)
 
 // transaction / account metadata: later values override earlier ones key by key, other keys stay
 //@ spec metaOk(st) = st != nil && st.TxMeta != nil && st.TxMeta != st.ParsedVars && st.SetAccountsMeta != nil && forallstr(a, has(st.SetAccountsMeta, a) ==> st.SetAccountsMeta[a] != nil) && forallstr(a, b, has(st.SetAccountsMeta, a) && has(st.SetAccountsMeta, b) && a != b ==> st.SetAccountsMeta[a] != st.SetAccountsMeta[b])
@@ -438,4 +442,52 @@ package interpreter
 //@   ensures [unknown-function] {C12,C17} typeis(statement, *parser.FnCall) && as(statement, *parser.FnCall).Caller.Name != "set_tx_meta" && as(statement, *parser.FnCall).Caller.Name != "set_account_meta" ==> err != nil
 //@   ensures [error-no-postings] {C03,C12} err != nil ==> len(result) == 0
 //@   ensures [state-ok] varsOk(st) && cacheOk(st) && metaOk(st)
-//@   modifies st.Senders, st.Receivers, st.CurrentAsset, heap(bigint), entries(st.CachedBalances), allentries("map[string]*math/big.Int"), allelems(Sender), allelems(Receiver), entries(st.TxMeta), entries(st.SetAccountsMeta), allentries("map[string]string")
+//@   ensures [cache-grew] {C10,C11} cacheGrew(st)
+//@   modifies st.Senders, st.Receivers, st.CurrentAsset, cellsof(st), entries(st.CachedBalances), allentries("map[string]*math/big.Int"), allelems(Sender), allelems(Receiver), entries(st.TxMeta), entries(st.SetAccountsMeta), allentries("map[string]string")
+
+// ---------------------------------------------------------------- balances requested up front
+
+//@ view pending(st, a, c) = has(st.CurrentBalanceQuery, a) && contains(st.CurrentBalanceQuery[a], c)
+//@ spec queryOk(st) = st != nil && st.CurrentBalanceQuery != nil
+
+//@ func (*programState).batchQuery
+//@   requires [state] queryOk(st)
+//@   ensures [never-world] {C10} forallstr(c, !old(pending(st, "world", c)) ==> !pending(st, "world", c))
+//@   ensures [adds] {C10} account != "world" ==> pending(st, account, asset)
+//@   ensures [keeps] {C10} forallstr(a, c, old(pending(st, a, c)) ==> pending(st, a, c))
+//@   ensures [only] {C10} forallstr(a, c, pending(st, a, c) && !old(pending(st, a, c)) ==> a == account && c == asset && account != "world")
+//@   ensures [state-ok] queryOk(st)
+//@   modifies entries(st.CurrentBalanceQuery)
+
+// Static traversal of a source: afterwards every account whose balance matters is in the pending query.
+//@ func (*programState).findBalancesQueries
+//@   requires [wf] wf(source)
+//@   requires [state] varsOk(st) && queryOk(st)
+//@   ensures [all-needed-requested] {C10} err == nil ==> leavesPending(st, source, st.CurrentAsset)
+//@   ensures [keeps] {C10} forallstr(a, c, old(pending(st, a, c)) ==> pending(st, a, c))
+//@   ensures [never-world] {C10} forallstr(c, !old(pending(st, "world", c)) ==> !pending(st, "world", c))
+//@   ensures [state-ok] varsOk(st) && queryOk(st)
+//@   modifies entries(st.CurrentBalanceQuery)
+//@   loop 1
+//@     invariant [visited] {C10} forall(j, 0, iter, leavesPending(st, as(source, *parser.SourceInorder).Sources[j], st.CurrentAsset))
+//@     invariant [keeps] forallstr(a, c, old(pending(st, a, c)) ==> pending(st, a, c))
+//@     invariant [never-world] forallstr(c, !old(pending(st, "world", c)) ==> !pending(st, "world", c))
+//@     invariant [state] varsOk(st) && queryOk(st)
+//@   loop 2
+//@     invariant [visited] {C10} forall(j, 0, iter, leavesPending(st, as(source, *parser.SourceAllotment).Items[j].From, st.CurrentAsset))
+//@     invariant [keeps] forallstr(a, c, old(pending(st, a, c)) ==> pending(st, a, c))
+//@     invariant [never-world] forallstr(c, !old(pending(st, "world", c)) ==> !pending(st, "world", c))
+//@     invariant [state] varsOk(st) && queryOk(st)
+
+//@ spec assetOfSent(st, sv) = ite(typeis(sv, *parser.SentValueAll), as(evalOf(st, as(sv, *parser.SentValueAll).Asset), Asset), as(evalOf(st, as(sv, *parser.SentValueLiteral).Monetary), Monetary).Asset)
+// what a statement needs from the store is in the pending query
+//@ spec stmtPending(st, s) = (typeis(s, *parser.SendStatement) ==> leavesPending(st, as(s, *parser.SendStatement).Source, assetOfSent(st, as(s, *parser.SendStatement).SentValue))) && (typeis(s, *parser.SaveStatement) ==> as(evalOf(st, as(s, *parser.SaveStatement).Amount), AccountAddress) == "world" || pending(st, as(evalOf(st, as(s, *parser.SaveStatement).Amount), AccountAddress), assetOfSent(st, as(s, *parser.SaveStatement).SentValue)))
+
+//@ func (*programState).findBalancesQueriesInStatement
+//@   requires [wf] wf(statement)
+//@   requires [state] varsOk(st) && queryOk(st)
+//@   ensures [requested] {C08,C10} err == nil ==> stmtPending(st, statement)
+//@   ensures [keeps] {C10} forallstr(a, c, old(pending(st, a, c)) ==> pending(st, a, c))
+//@   ensures [never-world] {C10} forallstr(c, !old(pending(st, "world", c)) ==> !pending(st, "world", c))
+//@   ensures [state-ok] varsOk(st) && queryOk(st)
+//@   modifies entries(st.CurrentBalanceQuery), st.CurrentAsset
